@@ -41,11 +41,11 @@ type cfg struct {
 	flap   bool
 	lo, hi float64
 	hist   int64 // -1: property not set (pipeline default)
-	hasHis bool
+	win    int   // form w: window().periodCount(win).everyCount(win)
 }
 
 func parseCfg(t []string) (cfg, error) {
-	c := cfg{form: "s", lv: "111", rs: "000", hist: -1}
+	c := cfg{form: "s", lv: "111", rs: "000", hist: -1, win: 2}
 	for _, kv := range t[1:] {
 		i := strings.IndexByte(kv, '=')
 		if i < 0 {
@@ -75,6 +75,11 @@ func parseCfg(t []string) (cfg, error) {
 			c.hi = bitsF(v)
 		case "hist":
 			c.hist, _ = strconv.ParseInt(v, 10, 64)
+		case "win":
+			c.win, _ = strconv.Atoi(v)
+			if c.win < 1 {
+				c.win = 1
+			}
 		default:
 			return c, fmt.Errorf("unknown cfg key %q", k)
 		}
@@ -144,6 +149,11 @@ func (c cfg) alertProps(topic string) string {
 }
 
 func (c cfg) script(topic string) (string, kapacitor.TaskType) {
+	if c.form == "w" {
+		// batches made by a real window node; the first @bsink() records what the alert node is fed
+		return fmt.Sprintf("stream|from().measurement('m').groupBy('host')|window().periodCount(%d).everyCount(%d)@bsink()|alert()", c.win, c.win) +
+			c.alertProps(topic) + "@bsink()", kapacitor.StreamTask
+	}
 	if c.form == "b" {
 		return "batch|query('SELECT * FROM \"db\".\"rp\".\"m\"').period(1s).every(1s).groupBy('host')|alert()" + c.alertProps(topic) + "@bsink()", kapacitor.BatchTask
 	}
@@ -203,6 +213,27 @@ func fieldsOf(vec string) (models.Fields, error) {
 		}
 	}
 	return f, nil
+}
+
+// vecOf is the inverse of fieldsOf: the condition vector of a recorded point.
+func vecOf(f models.Fields) string {
+	names := append(append([]string{}, lvFields...), rsFields...)
+	b := make([]byte, len(names))
+	for k, n := range names {
+		switch v := f[n].(type) {
+		case bool:
+			if v {
+				b[k] = '1'
+			} else {
+				b[k] = '0'
+			}
+		case nil:
+			b[k] = 'm'
+		default:
+			b[k] = 'x'
+		}
+	}
+	return string(b)
 }
 
 func lvlNum(s string) string {
@@ -266,8 +297,8 @@ func (r *runner) execCase(ops []string) (out []string, err error) {
 		case "p", "b", "v", "restart":
 			body = append(body, t)
 			out = append(out, l)
-		case "events", "fwd":
-			// observation lines of a previous run: recomputed below
+		case "events", "fwd", "wb":
+			// observation lines (and derived window batches) of a previous run: recomputed below
 		default:
 			return nil, fmt.Errorf("unknown op %q", l)
 		}
@@ -391,6 +422,9 @@ func (r *runner) execCase(ops []string) (out []string, err error) {
 			}
 		case "restart":
 			// stop the task (all input processed) and start it again: per-ID state is restored from the topic
+			if c.form == "w" {
+				return fail(fmt.Errorf("restart is not supported in form w"))
+			}
 			if err := stop(); err != nil {
 				return fail(fmt.Errorf("task failed: %v", err))
 			}
@@ -406,6 +440,26 @@ func (r *runner) execCase(ops []string) (out []string, err error) {
 	tm.Alert.DeregisterAnonHandler(topic, rec)
 	tm.Alert.DeleteTopic(topic)
 
+	if c.form == "w" {
+		// sinkKeys = [<task>/bsinkA (under the window), <task>/bsinkB (under the alert)], sorted
+		if len(sinkKeys) > 2 {
+			return nil, fmt.Errorf("form w: unexpected sinks %v", sinkKeys)
+		}
+		if len(sinkKeys) >= 1 {
+			for _, m := range tm.Rec.Get(sinkKeys[0]) {
+				bb, ok := m.(edge.BufferedBatchMessage)
+				if !ok {
+					continue
+				}
+				var pts []string
+				for _, bp := range bb.Points() {
+					pts = append(pts, fmt.Sprintf("%d:%s", bp.Time().UnixNano(), vecOf(bp.Fields())))
+				}
+				out = append(out, fmt.Sprintf("wb %s %d %s", kit.Esc(bb.Tags()["host"]), bb.Time().UnixNano(), list(pts)))
+			}
+			sinkKeys = sinkKeys[1:]
+		}
+	}
 	var evs []string
 	for _, e := range rec.Get() {
 		evs = append(evs, fmt.Sprintf("%s:%d:%d:%d", kit.Esc(e.State.ID), int(e.State.Level), e.State.Time.UnixNano(), int64(e.State.Duration)))
